@@ -35,6 +35,24 @@ from .oracles import c01_oracle, c08_oracle, c09_oracle
 
 
 SDE_VALUES = [None, "0", "315532799", "315532800", "now", "abc"]
+# quick tier draws one value per project; values at/after 1980 exercise gmtime
+SDE_WEIGHTED = [None, "0", "315532799", "315532800", "315532800", "now", "now", "abc"]
+# A second scratch area on tmpfs (when there is one): tmpfs lists a directory in
+# reverse creation order whereas ext4 (dir_index) lists by name hash, so only
+# there does "re-create the tree in another creation order" change what
+# os.listdir / glob / os.walk return.
+ALT_SCRATCH = os.environ.get("PCV_ALT_SCRATCH", "/dev/shm")
+
+
+def _alt_scratch(fallback: Path) -> Path:
+    try:
+        if os.path.isdir(ALT_SCRATCH) and os.access(ALT_SCRATCH, os.W_OK):
+            return Path(tempfile.mkdtemp(prefix="pcv-", dir=ALT_SCRATCH))
+    except OSError:
+        pass
+    d = fallback / "alt"
+    d.mkdir()
+    return d
 TZS = ["UTC", "Asia/Tokyo", "America/Los_Angeles", "Pacific/Kiritimati", "Asia/Kolkata"]
 LOCALES = ["C", "POSIX", "C.UTF-8", "en_US.UTF-8", "tr_TR.UTF-8", "de_DE.ISO-8859-1"]
 UMASKS = [0o022, 0o077, 0o002, 0o027, 0o000]
@@ -80,6 +98,7 @@ def judge_project(spec: dict, rng: random.Random, props=("C01", "C08", "C09"), t
     out["oplog"] = None
     cs = spec.get("config_settings")
     tmp = Path(tempfile.mkdtemp(prefix="pcv-"))
+    alt = None
     try:
         A = tmp / "a" / "proj"
         materialize(spec, A, order_seed=rng.randrange(1 << 30))
@@ -117,7 +136,9 @@ def judge_project(spec: dict, rng: random.Random, props=("C01", "C08", "C09"), t
             builds.append(_entry("base-other-api", api_b, A, cs, None, True, "0", r, "other API, cwd=/"))
 
         if "C08" in props:
-            other = tmp / "else where" / "deeper" / "proj2"
+            alt = _alt_scratch(tmp)
+            stats["alt_scratch"] = str(alt.parent)
+            other = alt / "else where" / "deeper" / "proj2"
             (tmp / "cwd").mkdir()
             if not thorough:
                 materialize(spec, other, order_seed=rng.randrange(1 << 30))
@@ -129,10 +150,11 @@ def judge_project(spec: dict, rng: random.Random, props=("C01", "C08", "C09"), t
                         perturbation=f"recreated in another order at another path, touch, chmod, {env}, umask {um:o}, hashseed {hs}, cwd")
                 # a previous build left dist/ and build/ behind
                 _leave_artefacts(A, base_res)
-                sde = _sde(rng.choice(SDE_VALUES))
+                sde = _sde(rng.choice(SDE_WEIGHTED))
                 hs2 = str(rng.randrange(1, 10**6))
-                variant("leftover", A, rng.choice([api_a, api_b]), sde=sde, hashseed=hs2,
-                        perturbation=f"dist/ and build/ left in the tree, SOURCE_DATE_EPOCH={sde!r}, hashseed {hs2}")
+                tz = rng.choice(TZS)
+                variant("leftover", A, rng.choice([api_a, api_b]), sde=sde, hashseed=hs2, env={"TZ": tz},
+                        perturbation=f"dist/ and build/ left in the tree, SOURCE_DATE_EPOCH={sde!r}, TZ={tz}, hashseed {hs2}")
             else:
                 for hs in ("1", "2", "12345"):
                     env = {"TZ": rng.choice(TZS), "LC_ALL": rng.choice(LOCALES), "LANG": rng.choice(LOCALES)}
@@ -142,7 +164,8 @@ def judge_project(spec: dict, rng: random.Random, props=("C01", "C08", "C09"), t
                 variant("cwd", A, "builder", cwd=tmp / "cwd", perturbation="builder API from another cwd")
                 for v in SDE_VALUES[1:]:
                     sde = _sde(v)
-                    variant(f"sde-{v}", A, api_a, sde=sde, perturbation=f"SOURCE_DATE_EPOCH={sde!r}")
+                    variant(f"sde-{v}", A, api_a, sde=sde, env={"TZ": "Asia/Tokyo"},
+                            perturbation=f"SOURCE_DATE_EPOCH={sde!r}, TZ=Asia/Tokyo")
                     variant(f"sde-{v}-again", A, api_b, sde=sde, hashseed="0", env={"TZ": rng.choice(TZS)},
                             perturbation=f"SOURCE_DATE_EPOCH={sde!r} again, other API, other TZ")
                 materialize(spec, other, order_seed=rng.randrange(1 << 30))
@@ -186,6 +209,8 @@ def judge_project(spec: dict, rng: random.Random, props=("C01", "C08", "C09"), t
         return out
     finally:
         _rmtree(tmp)
+        if alt is not None and alt.exists():
+            _rmtree(alt)
         stats["elapsed"] = round(time.time() - t_start, 2)
 
 
@@ -200,3 +225,15 @@ def _leave_artefacts(root: Path, base_res: dict) -> None:
             shutil.copy(r["path"], dist / r["returned"])
     (root / "build" / "lib").mkdir(parents=True, exist_ok=True)
     (root / "build" / "lib" / "stale.py").write_text("stale = 1\n")
+
+
+if __name__ == "__main__":  # replay one stored spec:  python -m builders.judge SPEC.json [quick|thorough] [seed]
+    import json
+    import sys
+
+    _spec = json.loads(Path(sys.argv[1]).read_text())
+    _tier = sys.argv[2] if len(sys.argv) > 2 else "quick"
+    _seed = int(sys.argv[3]) if len(sys.argv) > 3 else 0
+    _res = judge_project(_spec, random.Random(_seed), tier=_tier)
+    _res.pop("oplog", None)
+    print(json.dumps(_res, indent=1, ensure_ascii=False))
